@@ -467,6 +467,42 @@ func (it *Interp) textModel(st *state, name string, c *ssa.CallCommon, args []Va
 		}
 		it.unsup("%s of a text whose length would depend on its symbolic contents", name)
 		return OpaqueV{"trimmed text"}, true
+	case "strings.HasSuffix", "strings.HasPrefix", "strings.Contains", "strings.EqualFold":
+		a, ok1 := args[0].(StrV)
+		b, ok2 := args[1].(StrV)
+		if ok1 && ok2 && a.Known && b.Known {
+			var r bool
+			switch name {
+			case "strings.HasSuffix":
+				r = strings.HasSuffix(a.S, b.S)
+			case "strings.HasPrefix":
+				r = strings.HasPrefix(a.S, b.S)
+			case "strings.Contains":
+				r = strings.Contains(a.S, b.S)
+			case "strings.EqualFold":
+				r = strings.EqualFold(a.S, b.S)
+			}
+			return it.constBV(uint64(b2i(r)), 1), true
+		}
+		return nil, false
+	case "strings.IndexByte":
+		a, ok1 := args[0].(StrV)
+		c, ok2 := args[1].(BV)
+		if cv, isC := c.IsConst(); ok1 && ok2 && a.Known && isC {
+			return it.constBV(uint64(int64(strings.IndexByte(a.S, byte(cv)))), 64).signed(), true
+		}
+		return nil, false
+	case "strings.ToLower", "strings.ToUpper", "strings.TrimSpace":
+		if a, ok := args[0].(StrV); ok && a.Known {
+			switch name {
+			case "strings.ToLower":
+				return StrV{Known: true, S: strings.ToLower(a.S)}, true
+			case "strings.ToUpper":
+				return StrV{Known: true, S: strings.ToUpper(a.S)}, true
+			}
+			return StrV{Known: true, S: strings.TrimSpace(a.S)}, true
+		}
+		return nil, false
 	case "strings.LastIndex":
 		s, ok1 := args[0].(StrV)
 		sub, ok2 := args[1].(StrV)
